@@ -146,6 +146,10 @@ def _representations(which):
                     if (idx * 7919 % 3 == 0) == (k == 0):
                         out.write(a)
             pysam.index(os.path.join(d, name))
+        # a file of the experiment without a single record on the contig (an empty replicate, or a per-chromosome split)
+        with pysam.AlignmentFile(os.path.join(d, "empty.bam"), "wb", template=inp) as out:
+            pass
+        pysam.index(os.path.join(d, "empty.bam"))
         env = dict(os.environ, HOME=os.path.join(d, "home"))
         os.makedirs(env["HOME"], exist_ok=True)
 
@@ -168,6 +172,10 @@ def _representations(which):
         variants = {}
         if "split_bam" in which:
             variants["split_bam"] = run("split", ["part1.bam", "part2.bam"], "chr9.4M.gtf.gz", ["--complete_genedb"])
+        if "empty_first_bam" in which:
+            variants["empty_first_bam"] = run("emptyfirst", ["empty.bam", "chr9.4M.ont.sim.polya.bam"], "chr9.4M.gtf.gz", ["--complete_genedb"])
+        if "empty_last_bam" in which:
+            variants["empty_last_bam"] = run("emptylast", ["chr9.4M.ont.sim.polya.bam", "empty.bam"], "chr9.4M.gtf.gz", ["--complete_genedb"])
         if "plain_gtf" in which:
             variants["plain_gtf"] = run("plain", ["chr9.4M.ont.sim.polya.bam"], "plain.gtf", ["--complete_genedb"])
         if "inferred" in which:
@@ -185,7 +193,7 @@ def _representations(which):
                 if base[fn] is None or v[fn] is None:
                     continue
                 a, b = base[fn], v[fn]
-                if vname == "split_bam" and fn.startswith("S.read_assignments"):
+                if vname in ("split_bam", "empty_first_bam", "empty_last_bam") and fn.startswith("S.read_assignments"):
                     # the file label column may differ; compare read id, isoform, type, exons
                     key = lambda l: tuple(l.split("\t")[:8])
                     a, b = sorted(map(key, a)), sorted(map(key, b))
@@ -201,11 +209,11 @@ def replay_repr(d):
     return (not p), "%s: %s" % (d["inputs"]["which"], p or "identical to the base run")
 
 
-@bounded("C12.representations", ["C12"], note="real pipeline runs on the bundled chr9 data: the same alignments as one BAM or split over two "
-         "BAMs, the annotation gzipped or plain (thorough: also as the pre-built gffutils database and with inferred genes/transcripts) "
+@bounded("C12.representations", ["C12"], note="real pipeline runs on the bundled chr9 data: the same alignments as one BAM, split over two "
+         "BAMs, or accompanied by a BAM without a single record (first or last in the list), the annotation gzipped or plain (thorough: also as the pre-built gffutils database and with inferred genes/transcripts) "
          "must give identical read assignments, corrected alignments and ungrouped reference-based tables (as multisets of records)")
 def c12_repr(tier, rng):
-    which = ["split_bam", "plain_gtf"] if tier == "quick" else ["split_bam", "plain_gtf", "inferred", "prebuilt_db"]
+    which = ["split_bam", "empty_first_bam", "plain_gtf"] if tier == "quick" else ["split_bam", "empty_first_bam", "empty_last_bam", "plain_gtf", "inferred", "prebuilt_db"]
     p = _representations(which)
     viol = []
     if p:
